@@ -2,6 +2,7 @@ package gen
 
 import (
 	"go.mongodb.org/mongo-driver/bson"
+	"math"
 	"pgregory.net/rapid"
 )
 
@@ -50,6 +51,19 @@ func (c Cfg) Projection() *rapid.Generator[bson.D] {
 					arg = bson.A{rapid.SampledFrom([]interface{}{int32(0), int32(1), int32(2), int32(-1), int32(-2), int32(-5), int64(1), float64(1), int32(7)}).Draw(t, "sskip"), rapid.SampledFrom([]interface{}{int32(1), int32(2), int32(3), int64(1), float64(2), int32(0), int32(9)}).Draw(t, "slimit")}
 				} else {
 					arg = rapid.SampledFrom([]interface{}{int32(0), int32(1), int32(2), int32(-1), int32(-2), int32(5), int32(-5), int64(1), float64(-1)}).Draw(t, "sn")
+				}
+				if rapid.IntRange(0, 999).Draw(t, "sliceExtreme")%12 == 5 {
+					// counts at the edges of the integer types and beyond
+					if _, pair := arg.(bson.A); pair {
+						arg = rapid.SampledFrom([]interface{}{
+							bson.A{int32(1), int64(math.MaxInt64)}, bson.A{int64(math.MaxInt64), int64(math.MaxInt64)}, bson.A{int32(-1), int64(math.MaxInt64)},
+							bson.A{int64(math.MinInt64), int32(1)}, bson.A{int32(0), float64(1e300)}, bson.A{math.Inf(-1), int32(2)}, bson.A{int64(math.MinInt32) - 1, int64(math.MaxInt32) + 1},
+						}).Draw(t, "sextp")
+					} else {
+						arg = rapid.SampledFrom([]interface{}{
+							int64(math.MinInt64), int64(math.MaxInt64), math.Inf(-1), math.Inf(1), float64(-1e308), float64(-9.3e18), int64(math.MinInt32) - 1, int64(math.MaxInt32) + 1, int64(math.MinInt64) + 1,
+						}).Draw(t, "sext")
+					}
 				}
 				d = append(d, bson.E{Key: p, Value: bson.D{{Key: "$slice", Value: arg}}})
 			default:
